@@ -73,7 +73,8 @@ Inductive op :=
 | Slash (o : string) (prop : Z)                   (* prop: the proportion SlashAssets applied (LegacyDec, scaled) *)
 | NstBalance (st a : string) (x pend dep : Z).    (* UpdateNSTBalance(staker, asset, x); pend, dep: see do_nst_balance *)
 
-Inductive result := ROk | RErr | RPanic.   (* RPanic: the keeper call panicked; the model never predicts it *)
+Inductive result := ROk | RErr | RPanic.   (* RPanic: the keeper call panicked (a 315/256-bit guard of cosmossdk.io/math inside a
+                                              share conversion, see op_panics); the state is unchanged: the cache context is dropped *)
 Definition result_eqb (a b : result) : bool :=
   match a, b with ROk, ROk | RErr, RErr | RPanic, RPanic => true | _, _ => false end.
 
@@ -322,8 +323,94 @@ Definition step_opt (ops : list string) (s : state) (x : op) : option state :=
   | NstBalance st a x pend dep => do_nst_balance s st a x pend dep
   end.
 
+(* ---- rejected vs panicked ----
+   An operation that does not go through is either rejected (error) or panics; both leave the state unchanged. It panics
+   exactly when the FIRST share conversion that does not return normally hits an overflow guard of cosmossdk.io/math
+   (KPanic of the generated kernel) before any check rejects the call. The functions below walk the same path as the
+   do_* functions above. (Overflows outside the kernels — sums of amounts beyond 2^256 — are not modelled.) *)
+Definition is_panic {A} (r : kres A) : bool := match r with KPanic _ => true | _ => false end.
+
+Definition remove_share_panics (s : state) (a o : string) (sh : Z) : bool :=
+  (sh >? 0) && negb (sh >? p_tot (pool_of s o a)) && is_panic (removed_tokens (pool_of s o a) sh).
+
+Definition undelegate_panics (ops : list string) (s : state) (st a o : string) (amt : Z) : bool :=
+  (amt >? 0) && mem o ops &&
+  match aget k3_eqb (st_rows s) (st, a, o), aget k2_eqb (st_pools s) (o, a) with
+  | Some mine, Some p =>
+      match SharesFromTokens (p_tot p) amt (p_amt p) with
+      | KPanic _ => true
+      | KErr _ => false
+      | KOk sh =>
+          if sh >? mine then is_panic (TokensFromShares mine (p_tot p) (p_amt p))
+          else match SharesFromTokens (p_tot p) 1 (p_amt p) with
+               | KPanic _ => true
+               | KErr _ => false
+               | KOk tol => remove_share_panics s a o (if mine - sh <? tol then mine else sh)
+               end
+      end
+  | _, _ => false
+  end.
+
+Fixpoint total_delegated_panics (s : state) (a : string) (rs : list (string * Z)) : bool :=
+  match rs with
+  | [] => false
+  | (o, sh) :: r =>
+      if sh =? 0 then total_delegated_panics s a r
+      else match aget k2_eqb (st_pools s) (o, a) with
+           | None => false
+           | Some p => match TokensFromShares sh (p_tot p) (p_amt p) with
+                       | KPanic _ => true
+                       | KErr _ => false
+                       | KOk _ => total_delegated_panics s a r
+                       end
+           end
+  end.
+
+Fixpoint nst_fold_panics (prop : Z) (st a : string) (rs : list (string * Z)) (dep : Z) (s : state) : bool :=
+  match rs with
+  | [] => false
+  | (o, sh) :: r =>
+      match removed_tokens (pool_of s o a) (dec_mul sh prop), do_remove_share s st a o (dec_mul sh prop) with
+      | KOk tok, Some s' => if dep <? tok then false else nst_fold_panics prop st a r (dep - tok) s'
+      | _, _ => remove_share_panics s a o (dec_mul sh prop)
+      end
+  end.
+
+Definition nst_balance_panics (s : state) (st a : string) (x pend dep : Z) : bool :=
+  (x <? 0) &&
+  match aget k2_eqb (st_free s) (st, a) with
+  | None => false
+  | Some free =>
+      let need := - x in
+      let fromW := Z.min need free in
+      let s1 := set_free s st a (free - fromW) in
+      let rem := need - free - pend in
+      if (dep <? fromW) || (need - free <=? 0) || (dep - fromW <? Z.min (need - free) pend) || (rem <=? 0) then false
+      else
+        let rs := staker_rows s1 st a in
+        match total_delegated s1 a rs with
+        | None => total_delegated_panics s1 a rs
+        | Some tot =>
+            if tot =? 0 then false
+            else let q := dec_quo (dec_of_int rem) (dec_of_int tot) in
+                 nst_fold_panics (if q >? P then P else q) st a rs (dep - fromW - Z.min (need - free) pend) s1
+        end
+  end.
+
+Definition op_panics (ops : list string) (s : state) (x : op) : bool :=
+  match x with
+  | Delegate st a o amt =>
+      (amt >? 0) && mem o ops && negb (free_of s st a <? amt) && is_panic (calc_share (pool_of s o a) amt)
+  | Undelegate st a o amt => undelegate_panics ops s st a o amt
+  | NstBalance st a x pend dep => nst_balance_panics s st a x pend dep
+  | _ => false
+  end.
+
 Definition step (ops : list string) (s : state) (x : op) : state * result :=
-  match step_opt ops s x with Some s' => (s', ROk) | None => (s, RErr) end.
+  match step_opt ops s x with
+  | Some s' => (s', ROk)
+  | None => (s, if op_panics ops s x then RPanic else RErr)
+  end.
 
 Definition run (ops : list string) (s : state) (l : list op) : state :=
   fold_left (fun s x => fst (step ops s x)) l s.
